@@ -17,15 +17,19 @@ func (fr *Frame) setVal(v ssa.Value, term string) {
 	fr.vals[v] = Val{T: t, Ty: v.Type(), S: s}
 }
 
+// safetyOblig emits a run-time-panic obligation and then narrows the
+// reachability of the current block: Go panics when cond is false, so the
+// code that follows is reached only when cond holds.
 func (fr *Frame) safetyOblig(kind, desc, reach, cond string) {
 	u := fr.u
-	if !u.safety {
-		return
-	}
 	if cond == "true" {
 		return
 	}
-	u.oblig(kind, desc, implies(reach, cond), nil)
+	if u.safety {
+		u.oblig(kind, desc, implies(reach, cond), nil)
+	}
+	cur := fr.reach[fr.curBlock]
+	fr.reach[fr.curBlock] = u.define("reach_ok", "Bool", and(cur, cond))
 }
 
 func (fr *Frame) exec(ins ssa.Instruction, b *ssa.BasicBlock, h Heap) {
@@ -529,7 +533,7 @@ func (fr *Frame) execBinOp(x *ssa.BinOp, reach string, h Heap) {
 	case a.S == "Str":
 		switch x.Op {
 		case token.ADD:
-			fr.setVal(x, app("concat", a.T, b.T))
+			fr.setVal(x, app("strcat", a.T, b.T))
 			v := fr.vals[x]
 			u.assume(eq(app("strlen", v.T), iadd(app("strlen", a.T), app("strlen", b.T))))
 		case token.EQL:
@@ -817,6 +821,17 @@ func (fr *Frame) execSend(x *ssa.Send, reach string, h Heap) {
 	nn := u.comp(h, "ChSentN", "(Array Int Int)")
 	n := sel(nn, c)
 	h[sc] = u.define(sc, ss, sto(cur, c, sto(sel(cur, c), n, v)))
+	// ghost stamps declared by the contract of the function being executed
+	if fr.ct != nil {
+		for _, st := range fr.ct.Stamps {
+			env := fr.baseEnv(h)
+			env.at = x.Block()
+			cv := env.eval(st.Chan)
+			sv := env.eval(st.Expr)
+			stc := u.comp(h, "ChStamp", "(Array Int (Array Int Int))")
+			h["ChStamp"] = u.define("ChStamp", "(Array Int (Array Int Int))", ite(eq(cv.T, c), sto(stc, c, sto(sel(stc, c), n, sv.T)), stc))
+		}
+	}
 	h["ChSentN"] = u.define("ChSentN", "(Array Int Int)", sto(nn, c, iadd(n, "1")))
 }
 
